@@ -110,6 +110,11 @@ impl WorkerState {
                   was successful
                 */
                 log::debug!("Task not found");
+                // The task may still wait in the local backlog of prefilled tasks,
+                // it must not be started from there after the cancellation
+                self.prefilled_tasks
+                    .values_mut()
+                    .for_each(|tasks| tasks.retain(|t| t.id != task_id));
             }
             Some(task) => task.cancel(),
         }
